@@ -6,7 +6,7 @@ cd "$(dirname "$0")"
 REPO=${VERIF_REPO:-/repo}
 export VERIF_REPO=$REPO
 if [ "$REPO" != "/repo" ]; then sed -i "s|path = \"/repo\"|path = \"$REPO\"|" kani/Cargo.toml; fi
-for c in ${*:-C01 C02 C03 C04 C05 C06 C07 C08 C09 C10 C11 C12 C13 C14 C15 C17 C18 C19 C20}; do
+for c in ${*:-C01 C02 C03 C04 C05 C06 C07 C08 C09 C10 C11 C12 C13 C14 C15 C16 C17 C18 C19 C20}; do
   s=$(date +%s)
   ./check.py $c --tier thorough > /tmp/thorough_$c.log 2>&1; rc=$?
   echo "$c rc=$rc $(( $(date +%s) - s ))s $(tail -n 1 /tmp/thorough_$c.log)"
